@@ -30,10 +30,6 @@ theorem Errs.bind {α β} {Q} {x : PM α} {f : α → PM β} (hx : Errs Q x) (hf
     rw [hx'] at h
     exact hf a hx' e (by simpa [Bind.bind, Except.bind] using h)
 
-def IsDiag : PStop → Prop
-  | .diag _ => True
-  | _ => False
-
 def NotFuel : PStop → Prop
   | .fuel => False
   | _ => True
@@ -41,7 +37,6 @@ def NotFuel : PStop → Prop
 /-- a property of stops that every diagnostic has -/
 def DiagOk (Q : PStop → Prop) : Prop := ∀ m, Q (.diag m)
 
-theorem diagOk_isDiag : DiagOk IsDiag := fun _ => trivial
 theorem diagOk_notFuel : DiagOk NotFuel := fun _ => trivial
 
 section atoms
@@ -88,83 +83,53 @@ theorem errs_parseType (hq : DiagOk Q) (path : String) (n : TNode) : Errs Q (par
   refine Errs.bind (errs_optNum hq _ _ _ _) (fun _ _ => ?_)
   exact errs_optNum hq _ _ _ _
 
-/-- what a node must satisfy for its visit to raise only `Q`-stops -/
-def NodeOk (Q : PStop → Prop) (env : Env) (n : TNode) : Prop :=
-  n.depth ≤ env.stackLimit ∨ Q (.crash .nestingTooDeep)
-
-theorem errs_checkNode (hq : DiagOk Q) (env : Env) (path : String) (n : TNode) (h : NodeOk Q env n) :
-    Errs Q (checkNode env path n) := by
+theorem errs_checkNode (hq : DiagOk Q) (path : String) (n : TNode) : Errs Q (checkNode path n) := by
   unfold checkNode
   refine Errs.bind ?_ (fun _ _ => ?_)
   · unfold checkDepth
     split
-    · rcases h with h' | h'
-      · rename_i hlt; omega
-      · exact Errs.throw _ h'
+    · exact Errs.throw _ (hq _)
     · exact Errs.pure _
   · split
     · exact errs_parseType hq _ _
     · exact Errs.pure _
 
-theorem errs_checkNodes (hq : DiagOk Q) (env : Env) (path : String) :
-    ∀ ns : List TNode, (∀ n ∈ ns, NodeOk Q env n) → Errs Q (checkNodes env path ns)
-  | [], _ => by unfold checkNodes; exact Errs.pure _
-  | n :: r, h => by
+theorem errs_checkNodes (hq : DiagOk Q) (path : String) : ∀ ns : List TNode, Errs Q (checkNodes path ns)
+  | [] => by unfold checkNodes; exact Errs.pure _
+  | n :: r => by
     unfold checkNodes
-    refine Errs.bind (errs_checkNode hq env path n (h n (by simp))) (fun _ _ => ?_)
-    exact errs_checkNodes hq env path r (fun m hm => h m (by simp [hm]))
+    exact Errs.bind (errs_checkNode hq path n) (fun _ _ => errs_checkNodes hq path r)
 
 end atoms
 
 /-! ## items -/
 
-/-- the nodes of an item that `parseItemsWith` visits -/
-def Item.visited : Item → List TNode
-  | .schema _ _ => []
-  | .types _ d => d
-  | .message n d => n :: d
-  | .incl _ => []
-  | .other _ => []
-
-theorem errs_parseItemsWith {Q : PStop → Prop} (hq : DiagOk Q) (env : Env) (path : String)
+theorem errs_parseItemsWith {Q : PStop → Prop} (hq : DiagOk Q) (path : String)
     (incl : TNode → Parsed → PM Parsed) :
     ∀ (items : List Item) (acc : Parsed),
-      (∀ i ∈ items, ∀ n ∈ i.visited, NodeOk Q env n) →
       (∀ n, Item.incl n ∈ items → ∀ a, Errs Q (incl n a)) →
-      Errs Q (parseItemsWith env path incl items acc)
-  | [], acc, _, _ => by unfold parseItemsWith; exact Errs.pure _
-  | i :: r, acc, hn, hi => by
-    have hn' : ∀ j ∈ r, ∀ n ∈ j.visited, NodeOk Q env n := fun j hj => hn j (by simp [hj])
+      Errs Q (parseItemsWith path incl items acc)
+  | [], acc, _ => by unfold parseItemsWith; exact Errs.pure _
+  | i :: r, acc, hi => by
     have hi' : ∀ n, Item.incl n ∈ r → ∀ a, Errs Q (incl n a) := fun n hm => hi n (by simp [hm])
     cases i with
     | types n d =>
       unfold parseItemsWith
-      refine Errs.bind (errs_checkNodes hq env path d
-        (fun m hm => hn (.types n d) (by simp) m (by simpa [Item.visited] using hm))) (fun _ _ => ?_)
-      exact errs_parseItemsWith hq env path incl r _ hn' hi'
+      exact Errs.bind (errs_checkNodes hq path d) (fun _ _ => errs_parseItemsWith hq path incl r _ hi')
     | message n d =>
       unfold parseItemsWith
-      refine Errs.bind (errs_checkNodes hq env path (n :: d)
-        (fun m hm => hn (.message n d) (by simp) m (by simpa [Item.visited] using hm))) (fun _ _ => ?_)
-      exact errs_parseItemsWith hq env path incl r _ hn' hi'
+      exact Errs.bind (errs_checkNodes hq path (n :: d)) (fun _ _ => errs_parseItemsWith hq path incl r _ hi')
     | incl n =>
       unfold parseItemsWith
-      refine Errs.bind (hi n (by simp) acc) (fun _ _ => ?_)
-      exact errs_parseItemsWith hq env path incl r _ hn' hi'
+      exact Errs.bind (hi n (by simp) acc) (fun _ _ => errs_parseItemsWith hq path incl r _ hi')
     | other n =>
       unfold parseItemsWith
-      exact errs_parseItemsWith hq env path incl r _ hn' hi'
+      exact errs_parseItemsWith hq path incl r _ hi'
     | schema n c =>
       unfold parseItemsWith
-      exact errs_parseItemsWith hq env path incl r _ hn' hi'
+      exact errs_parseItemsWith hq path incl r _ hi'
 
 /-! ## documents, includes, fuel -/
-
-/-- every node of every document raises only `Q`-stops when visited -/
-structure FsOk (Q : PStop → Prop) (env : Env) (fs : FS) : Prop where
-  nodes : ∀ p top, fs.get p = .file (.doc top) → ∀ i ∈ top, ∀ n ∈ i.visited, NodeOk Q env n
-  content : ∀ p top, fs.get p = .file (.doc top) → ∀ sn c, Item.schema sn c ∈ top →
-    ∀ i ∈ c, ∀ n ∈ i.visited, NodeOk Q env n
 
 theorem requiredNonEmpty_ok {path : String} {n : TNode} {a v : String} (h : requiredNonEmpty path n a = .ok v) :
     n.attr a = some v := by
@@ -256,9 +221,9 @@ theorem stackOk_push {fs : FS} {stack : List String} {p : String} (h : StackOk f
     · simp only [List.mem_singleton] at hq; subst hq; exact hk
 
 /-- `parse_include` with enough fuel for the files that are not yet on the stack -/
-theorem errs_parseIncl {Q : PStop → Prop} (hq : DiagOk Q) {env : Env} {fs : FS} (hfs : FsOk Q env fs) :
+theorem errs_parseIncl {Q : PStop → Prop} (hq : DiagOk Q) {fs : FS} :
     ∀ (fuel : Nat) (path : String) (stack : List String) (n : TNode) (acc : Parsed),
-      StackOk fs stack → fs.length < fuel + stack.length → Errs Q (parseIncl env fs path stack fuel n acc)
+      StackOk fs stack → fs.length < fuel + stack.length → Errs Q (parseIncl fs path stack fuel n acc)
   | 0, path, stack, n, acc, hst, hb => by
     have := stackOk_length hst
     omega
@@ -271,8 +236,8 @@ theorem errs_parseIncl {Q : PStop → Prop} (hq : DiagOk Q) {env : Env} {fs : FS
       refine Errs.bind (errs_loadDoc hq fs href) (fun top htop => ?_)
       have hdoc := loadDoc_ok htop
       have hst' := stackOk_push hst hns (key_of_doc hdoc)
-      refine errs_parseItemsWith hq env href _ top acc (hfs.nodes href top hdoc) (fun n' _ a => ?_)
-      refine errs_parseIncl hq hfs fuel href (stack ++ [href]) n' a hst' ?_
+      refine errs_parseItemsWith hq href _ top acc (fun n' _ a => ?_)
+      refine errs_parseIncl hq fuel href (stack ++ [href]) n' a hst' ?_
       simp only [List.length_append, List.length_singleton]
       omega
 
@@ -313,17 +278,16 @@ theorem errs_parseSchemaAttrs {Q : PStop → Prop} (hq : DiagOk Q) (path : Strin
     · exact Errs.pure _
     · exact Errs.throw _ (hq _)
 
-theorem errs_parseMain {Q : PStop → Prop} (hq : DiagOk Q) {env : Env} {fs : FS} (hfs : FsOk Q env fs)
-    (fuel : Nat) (path : String) (hf : fs.length ≤ fuel) : Errs Q (parseMain env fs fuel path) := by
+theorem errs_parseMain {Q : PStop → Prop} (hq : DiagOk Q) {fs : FS}
+    (fuel : Nat) (path : String) (hf : fs.length ≤ fuel) : Errs Q (parseMain fs fuel path) := by
   unfold parseMain
   refine Errs.bind (errs_loadDoc hq fs path) (fun top htop => ?_)
   have hdoc := loadDoc_ok htop
   refine Errs.bind (errs_findSchema hq path top) (fun nc hnc => ?_)
   obtain ⟨n, c⟩ := nc
-  have hmem := findSchema_mem hnc
   refine Errs.bind (errs_parseSchemaAttrs hq path n) (fun _ _ => ?_)
-  refine errs_parseItemsWith hq env path _ c _ (hfs.content path top hdoc n c hmem) (fun n' _ a => ?_)
-  refine errs_parseIncl hq hfs fuel path [path] n' a ⟨by simp, ?_⟩ (by simp; omega)
+  refine errs_parseItemsWith hq path _ c _ (fun n' _ a => ?_)
+  refine errs_parseIncl hq fuel path [path] n' a ⟨by simp, ?_⟩ (by simp; omega)
   intro q hq'
   simp only [List.mem_singleton] at hq'
   subst hq'
@@ -331,36 +295,36 @@ theorem errs_parseMain {Q : PStop → Prop} (hq : DiagOk Q) {env : Env} {fs : FS
 
 /-! ### more fuel changes nothing -/
 
-theorem parseItemsWith_congr (env : Env) (path : String) (f g : TNode → Parsed → PM Parsed) :
+theorem parseItemsWith_congr (path : String) (f g : TNode → Parsed → PM Parsed) :
     ∀ (items : List Item) (acc : Parsed), (∀ n, Item.incl n ∈ items → ∀ a, f n a = g n a) →
-      parseItemsWith env path f items acc = parseItemsWith env path g items acc
+      parseItemsWith path f items acc = parseItemsWith path g items acc
   | [], acc, _ => by unfold parseItemsWith; rfl
   | i :: r, acc, h => by
     have hr : ∀ n, Item.incl n ∈ r → ∀ a, f n a = g n a := fun n hn => h n (by simp [hn])
     cases i with
     | types n d =>
       unfold parseItemsWith
-      simp only [parseItemsWith_congr env path f g r _ hr]
+      simp only [parseItemsWith_congr path f g r _ hr]
     | message n d =>
       unfold parseItemsWith
-      simp only [parseItemsWith_congr env path f g r _ hr]
+      simp only [parseItemsWith_congr path f g r _ hr]
     | incl n =>
       unfold parseItemsWith
       rw [h n (by simp) acc]
       congr 1
       funext acc'
-      exact parseItemsWith_congr env path f g r acc' hr
+      exact parseItemsWith_congr path f g r acc' hr
     | other n =>
       unfold parseItemsWith
-      exact parseItemsWith_congr env path f g r _ hr
+      exact parseItemsWith_congr path f g r _ hr
     | schema n c =>
       unfold parseItemsWith
-      exact parseItemsWith_congr env path f g r _ hr
+      exact parseItemsWith_congr path f g r _ hr
 
-theorem parseIncl_fuel_stable {env : Env} {fs : FS} :
+theorem parseIncl_fuel_stable {fs : FS} :
     ∀ (f1 f2 : Nat) (path : String) (stack : List String) (n : TNode) (acc : Parsed),
       StackOk fs stack → fs.length < f1 + stack.length → fs.length < f2 + stack.length →
-      parseIncl env fs path stack f1 n acc = parseIncl env fs path stack f2 n acc
+      parseIncl fs path stack f1 n acc = parseIncl fs path stack f2 n acc
   | 0, _, _, _, _, _, hst, h1, _ => by have := stackOk_length hst; omega
   | _ + 1, 0, _, _, _, _, hst, _, h2 => by have := stackOk_length hst; omega
   | f1 + 1, f2 + 1, path, stack, n, acc, hst, h1, h2 => by
@@ -377,13 +341,13 @@ theorem parseIncl_fuel_stable {env : Env} {fs : FS} :
         | ok top =>
           simp only []
           have hst' := stackOk_push hst hns (key_of_doc (loadDoc_ok ht))
-          refine parseItemsWith_congr env href _ _ top acc (fun n' _ a => ?_)
+          refine parseItemsWith_congr href _ _ top acc (fun n' _ a => ?_)
           refine parseIncl_fuel_stable f1 f2 href (stack ++ [href]) n' a hst' ?_ ?_ <;>
             (simp only [List.length_append, List.length_singleton]; omega)
 
-theorem parseMain_fuel_stable {env : Env} {fs : FS} (f1 f2 : Nat) (path : String)
+theorem parseMain_fuel_stable {fs : FS} (f1 f2 : Nat) (path : String)
     (h1 : fs.length ≤ f1) (h2 : fs.length ≤ f2) :
-    parseMain env fs f1 path = parseMain env fs f2 path := by
+    parseMain fs f1 path = parseMain fs f2 path := by
   unfold parseMain
   cases ht : loadDoc fs path with
   | error e => rfl
@@ -399,56 +363,18 @@ theorem parseMain_fuel_stable {env : Env} {fs : FS} (f1 f2 : Nat) (path : String
       | error e => rfl
       | ok _ =>
         simp only []
-        refine parseItemsWith_congr env path _ _ c _ (fun n' _ a => ?_)
+        refine parseItemsWith_congr path _ _ c _ (fun n' _ a => ?_)
         refine parseIncl_fuel_stable f1 f2 path [path] n' a ⟨by simp, ?_⟩ (by simp; omega) (by simp; omega)
         intro q hq'
         simp only [List.mem_singleton] at hq'
         subst hq'
         exact key_of_doc hdoc
 
-/-! ## a decidable sufficient condition for `FsOk IsDiag` -/
-
-def nodeOkB (env : Env) (n : TNode) : Bool := decide (n.depth ≤ env.stackLimit)
-
-def Item.contentOf : Item → List Item
-  | .schema _ c => c
-  | _ => []
-
-def itemOkB (env : Env) (i : Item) : Bool := i.visited.all (nodeOkB env)
-
-def entryOkB (env : Env) (pe : String × Entry) : Bool :=
-  match pe.2 with
-  | .file (.doc top) => top.all (fun i => itemOkB env i && i.contentOf.all (itemOkB env))
-  | _ => true
-
-theorem fsOk_of_entries (env : Env) (fs : FS) (h : ∀ pe ∈ fs, entryOkB env pe = true) : FsOk IsDiag env fs := by
-  have doc : ∀ p top, fs.get p = .file (.doc top) →
-      ∀ i ∈ top, itemOkB env i = true ∧ ∀ j ∈ i.contentOf, itemOkB env j = true := by
-    intro p top hp i hi
-    have := h _ (get_mem hp (by simp))
-    simp only [entryOkB, List.all_eq_true, Bool.and_eq_true] at this
-    exact this i hi
-  have item : ∀ i, itemOkB env i = true → ∀ n ∈ i.visited, NodeOk IsDiag env n := by
-    intro i hi n hn
-    simp only [itemOkB, List.all_eq_true] at hi
-    have := hi n hn
-    simp only [nodeOkB, decide_eq_true_eq] at this
-    exact Or.inl this
-  refine ⟨?_, ?_⟩
-  · intro p top hp i hi
-    exact item i (doc p top hp i hi).1
-  · intro p top hp sn c hm i hi
-    exact item i ((doc p top hp _ hm).2 i (by simpa [Item.contentOf] using hi))
-
-/-- with `Q := NotFuel` every crash is allowed -/
-theorem fsOk_notFuel (env : Env) (fs : FS) : FsOk NotFuel env fs :=
-  ⟨fun _ _ _ _ _ _ _ => Or.inr trivial, fun _ _ _ _ _ _ _ _ _ _ => Or.inr trivial⟩
-
 /-! ## the stages after parsing -/
 
 theorem front_error_p {env : Env} {fuel : Nat} {argv : List String} {fs : FS} {s : PStop}
     (h : front env fuel argv fs = .error (.p s)) :
-    (∃ m, s = .diag m) ∨ (∃ cfg, parseCommandLine argv = .go cfg ∧ parseMain env fs fuel cfg.file = .error s) := by
+    (∃ m, s = .diag m) ∨ (∃ cfg, parseCommandLine argv = .go cfg ∧ parseMain fs fuel cfg.file = .error s) := by
   unfold front at h
   split at h
   · cases h
